@@ -314,3 +314,34 @@ def check_stop_maintenance(ctx):
                       'the field length may change here but some path leaves the method without looking at `self._stop`: a bounded view keeps its old '
                       'end and silently takes in (or loses) the neighbouring element; later operations through the view land one off', x.lineno,
                       sample={'method': fi.key, 'call': norm(x, 70)})
+
+
+def check_async_twins(ctx, F):
+    """R3.7 — With/AsyncWith, For/AsyncFor, FunctionDef/AsyncFunctionDef have identical fields (checked against FIELDS): whatever the code does for
+    the sync class it has to do for the async one, the only difference between them being the `async` keyword in front.  A class test that
+    names the sync class must name its async twin in the same test (a test for the async class alone is the keyword-prefix case)."""
+    TW = {'With': 'AsyncWith', 'For': 'AsyncFor', 'FunctionDef': 'AsyncFunctionDef'}
+    ctx.rule('R3.7', 'a node-class test that names With / For / FunctionDef names the async twin too (identical fields, identical handling)', 5)
+    byname = {c.name: fs for c, fs in F.items()}
+    for a_, b_ in TW.items():
+        if byname.get(a_) != byname.get(b_):
+            raise AnalysisError(f'FIELDS[{a_}] != FIELDS[{b_}]: the twin premise of R3.7 no longer holds')
+    SETS = {}      # names of module-level class sets that contain both twins: ASTS_LEAF_WITH, ...
+    n = 0
+    for fi in ctx.repo.all_funcs():
+        if isinstance(fi.node, ast.Lambda) or fi.module in ('match', 'asttypes', 'fst_type_predicates', 'traverse_next', 'traverse_prev', 'astutil'):
+            continue
+        for c in walk_no_nested(fi.node):
+            if not (isinstance(c, ast.Compare) and len(c.ops) == 1 and isinstance(c.ops[0], (ast.Is, ast.Eq, ast.IsNot, ast.NotEq, ast.In, ast.NotIn))):
+                continue
+            r = c.comparators[0]
+            names = [r.id] if isinstance(r, ast.Name) else [e.id for e in r.elts if isinstance(e, ast.Name)] if isinstance(r, (ast.Tuple, ast.Set, ast.List)) else []
+            for nm in names:
+                if nm in TW:
+                    n += 1
+                    ctx.check('R3.7', TW[nm] in names, fi.module, fi.qualname, norm(c, 80),
+                              f'the test singles out {nm} and leaves {TW[nm]} to another path although both have the same fields: the async form of the '
+                              f'statement misses this handling', c.lineno, sample={'function': fi.key, 'test': norm(c, 80)})
+    # the instance population are the tests naming the sync class (with its twin); at least the module-level families must exist
+    fam = [n_ for n_ in ('ASTS_LEAF_WITH', 'ASTS_LEAF_FOR', 'ASTS_LEAF_FUNCDEF') if any(n_ in m.src for m in ctx.repo.modules.values() if hasattr(m, 'src'))]
+    ctx.extra['async_twin_tests'] = n
